@@ -1,12 +1,18 @@
 #!/bin/sh
-# Build the framework from files on disk only (offline): Rust harness + the Coq development.
-set -e
+# Build the framework from files on disk only (offline): Rust harness binaries + the Coq development.
+# Each check rebuilds what it needs anyway; this only warms the caches, so a failure of one
+# component is reported but does not stop the others.
 cd "$(dirname "$0")"
 export CARGO_NET_OFFLINE=true
-mkdir -p .work evidence/replays
+mkdir -p .work evidence/replays coq/Generated
 [ -f harness/Cargo.lock ] || cp /repo/Cargo.lock harness/Cargo.lock
-(cd harness && cargo build --release --offline -q --workspace) || { cp /repo/Cargo.lock harness/Cargo.lock; (cd harness && cargo build --release --offline -q --workspace); }
-mkdir -p coq/Generated
+status=0
+for d in harness/crates/c*; do
+  name="dl-$(basename "$d")"
+  (cd harness && cargo build --release --offline -q -p "$name") || { echo "setup: build of $name failed"; status=1; }
+done
 sh coq/gen_project.sh
-(cd coq && timeout 3000 make -j16)
-echo "setup done"
+targets=$(cd coq && ls Properties/*.v | sed 's/\.v$/.vo/')
+(cd coq && timeout 3000 make -j16 $targets) || { echo "setup: coq build failed"; status=1; }
+echo "setup done (status $status)"
+exit $status
